@@ -35,7 +35,8 @@ type timer struct {
 	period time.Duration // >0: ticker
 	dead   bool
 	name   string
-	c      *Clock // the clock the timer was armed on (Reset may have installed another since)
+	dur    time.Duration // the duration the timer was armed with (harness filters by it)
+	c      *Clock        // the clock the timer was armed on (Reset may have installed another since)
 }
 
 type Clock struct {
@@ -66,7 +67,7 @@ func (c *Clock) add(d time.Duration, period time.Duration, name string) *timer {
 	c.mu.Lock()
 	defer c.mu.Unlock()
 	c.seq++
-	t := &timer{at: c.now.Add(d), seq: c.seq, ch: make(chan time.Time, 1), period: period, name: name, c: c}
+	t := &timer{at: c.now.Add(d), seq: c.seq, ch: make(chan time.Time, 1), period: period, name: name, c: c, dur: d}
 	c.timers = append(c.timers, t)
 	return t
 }
@@ -94,6 +95,24 @@ func (t *Timer) Stop() bool {
 	defer c.mu.Unlock()
 	was := !t.t.dead
 	t.t.dead = true
+	return was
+}
+
+// Reset re-arms the timer to fire d from the current virtual instant (as package time: true if it was active).
+func (t *Timer) Reset(d time.Duration) bool {
+	c := t.t.c
+	c.mu.Lock()
+	defer c.mu.Unlock()
+	was := !t.t.dead
+	c.seq++
+	t.t.at, t.t.seq, t.t.dur, t.t.dead = c.now.Add(d), c.seq, d, false
+	found := false
+	for _, x := range c.timers {
+		found = found || x == t.t
+	}
+	if !found {
+		c.timers = append(c.timers, t.t)
+	}
 	return was
 }
 
@@ -138,12 +157,27 @@ func (c *Clock) live() []*timer {
 }
 
 // FireNext advances the clock to the earliest live timer and fires it (a ticker is
-// re-armed; a tick that finds its channel full is dropped, as in package time).
-// Returns false when no timer is pending.
-func FireNext() bool {
+// re-armed one period after the instant it fired at, ticks it missed are dropped; a tick that
+// finds its channel full is dropped, as in package time). Returns false when no timer is pending.
+func FireNext() bool { return fireOne(nil) }
+
+func match(l []*timer, pred func(time.Duration) bool) []*timer {
+	if pred == nil {
+		return l
+	}
+	var out []*timer
+	for _, t := range l {
+		if pred(t.dur) {
+			out = append(out, t)
+		}
+	}
+	return out
+}
+
+func fireOne(pred func(time.Duration) bool) bool {
 	clk := cur()
 	clk.mu.Lock()
-	l := clk.live()
+	l := match(clk.live(), pred)
 	if len(l) == 0 {
 		clk.mu.Unlock()
 		return false
@@ -155,6 +189,9 @@ func FireNext() bool {
 	now := clk.now
 	if t.period > 0 {
 		t.at = t.at.Add(t.period)
+		if !t.at.After(now) {
+			t.at = now.Add(t.period)
+		}
 	} else {
 		t.dead = true
 	}
@@ -172,26 +209,42 @@ func Advance(d time.Duration) { c := cur(); c.mu.Lock(); c.now = c.now.Add(d); c
 
 // FireDue advances the clock to the earliest live timer and fires every timer due at that
 // instant (so that the result does not depend on the order in which goroutines armed them).
-func FireDue() int {
+func FireDue() int { return FireDueWhere(nil) }
+
+// PendingWhere counts the live timers whose arming duration satisfies pred.
+func PendingWhere(pred func(time.Duration) bool) int {
+	c := cur()
+	c.mu.Lock()
+	defer c.mu.Unlock()
+	return len(match(c.live(), pred))
+}
+
+// FireDueWhere is FireDue restricted to the timers whose arming duration satisfies pred: the clock
+// moves to the earliest of THEM (timers outside the filter that are due earlier simply fire late,
+// which real timers may always do).
+func FireDueWhere(pred func(time.Duration) bool) int {
 	clk := cur()
 	clk.mu.Lock()
-	l := clk.live()
+	l := match(clk.live(), pred)
 	if len(l) == 0 {
 		clk.mu.Unlock()
 		return 0
 	}
 	at := l[0].at
+	if at.Before(clk.now) {
+		at = clk.now
+	}
 	clk.mu.Unlock()
 	n := 0
 	for {
 		clk.mu.Lock()
-		l = clk.live()
+		l = match(clk.live(), pred)
 		if len(l) == 0 || l[0].at.After(at) {
 			clk.mu.Unlock()
 			return n
 		}
 		clk.mu.Unlock()
-		FireNext()
+		fireOne(pred)
 		n++
 	}
 }
